@@ -1307,7 +1307,7 @@ def _dict_to_BlockSeries(
     operator = copy(operator)
     key_types = set(isinstance(key, sympy.Basic) for key in operator.keys())
     if any(key_types):
-        operator, symbols = _symbolic_keys_to_tuples(operator)
+        operator, symbols = _symbolic_keys_to_tuples(operator, symbols)
 
     n_infinite = len(next(iter(operator.keys())))
     zeroth_order = (0,) * n_infinite
@@ -1329,6 +1329,7 @@ def _dict_to_BlockSeries(
 
 def _symbolic_keys_to_tuples(
     hamiltonian: dict[sympy.Basic, Any],
+    symbols: Sequence[sympy.Symbol] | None = None,
 ) -> tuple[dict[tuple[int, ...], Any], list[sympy.Basic]]:
     """Convert symbolic monomial keys to tuples of integers.
 
@@ -1355,8 +1356,11 @@ def _symbolic_keys_to_tuples(
     # The key of the unperturbed Hamiltonian may be the Python integer 1.
     hamiltonian = {sympy.sympify(key): value for key, value in hamiltonian.items()}
     # Collect all symbols from the keys
-    symbols = list(set.union(*[key.free_symbols for key in hamiltonian.keys()]))
-    symbols = tuple(sorted(symbols, key=lambda x: x.name))
+    key_symbols = set.union(*[key.free_symbols for key in hamiltonian.keys()])
+    if symbols and key_symbols <= set(symbols):
+        symbols = tuple(symbols)  # The order given by the user defines the indices.
+    else:
+        symbols = tuple(sorted(key_symbols, key=lambda x: x.name))
     if not all(symbol.is_commutative for symbol in symbols):
         raise ValueError("All symbols must be commutative.")
 
